@@ -714,7 +714,7 @@ pub fn c07_run(seed: u64, i: u64, mon: &mut Mon, found: &mut Vec<Found>) {
     let mask = ValMask::draw(&mut rng, opts::print_fields(popts).chr == 1);
     let depth = if rng.chance(1, 10) { 4 } else { rng.below(4) as u32 };
     let entry_pick = rng.below(20);
-    let mut run_case = |case: SinkCase, mon: &mut Mon, found: &mut Vec<Found>| {
+    let run_case = |case: SinkCase, mon: &mut Mon, found: &mut Vec<Found>| {
         mon.before_case(|| serde_json::to_string(&AnyCase::Sink(case.clone())).unwrap_or_default());
         let before = mon.violations.len();
         check_sink_case(&case, mon);
